@@ -198,7 +198,7 @@ def run(tier, seed):
     tmeta = [(None, "targeted")] * len(tcases)
     pool = [bi for bi, b in enumerate(bases) if T.usable(b) and len(b["terms"]) >= 2]
     rng.shuffle(pool)
-    for bi in pool[:40 if tier == "quick" else 300]:
+    for bi in pool[:40 if tier == "quick" else 120]:
         b = strip(bases[bi])
         v1 = dict(b, _layout=None, _kind="chunks")
         v2 = T.relayout(rng, b, "nest")
